@@ -128,13 +128,14 @@ private:
 class SimIStreamBuf : public std::streambuf
 {
 public:
-    SimIStreamBuf(const Bytes &data, size_t start, size_t limit, size_t chunk, long throw_refill = 0, bool seekable = false)
+    SimIStreamBuf(const Bytes &data, size_t start, size_t limit, size_t chunk, long throw_refill = 0, bool seekable = false, bool live = false)
         : m_data(data)
         , m_pos(start)
         , m_limit(std::min(limit, data.size()))
         , m_buf(chunk ? chunk : 1)
         , m_throw(throw_refill)
         , m_seekable(seekable)
+        , m_live(live)
     {
         setg((char *)m_buf.data(), (char *)m_buf.data(), (char *)m_buf.data());
     }
@@ -163,6 +164,8 @@ protected:
             fault_fired = true;
             throw SimIoError{};
         }
+        if (m_live)
+            m_limit = m_data.size(); // the reading end of a pipe: whatever the writer has delivered so far
         if (m_pos >= m_limit) {
             fault_fired = true;
             return traits_type::eof();
@@ -202,6 +205,7 @@ private:
     Bytes m_buf;
     long m_throw;
     bool m_seekable;
+    bool m_live = false;
 };
 
 }
